@@ -34,7 +34,8 @@ PROPS = {
         "level": "exploration",
         "rule": "cases = generated rejected/partially decodable packets (faults behind VLAN/MACsec/IP/extension headers, "
                 "always with trailing bytes and trimming outer length fields, plus truncation sweeps) through all whole-packet "
-                "entry points of the 4 decoder families and the 13 IP-level entry points; every Err / lax stop error is "
+                "entry points of the 4 decoder families, the 13 IP-level entry points and the io::Read doors (IpHeaders::read, "
+                "Ipv6Extensions/Ipv4Extensions::read_limited over a LimitedReader with a random base offset); every Err / lax stop error is "
                 "compared field by field with the set of truthful reports of the reference decoder; distinct = distinct "
                 "(entry point, error class, stop layer, faulty layer kind, fault behind offset 0) signatures",
         "assumptions": COMMON_ASSUME + [
@@ -55,7 +56,8 @@ PROPS = {
         "rule": "cases = generated packets (clean, hostile, every truncation point of a packet, IP-level, single lax layers) "
                 "through every lax entry point (LaxSlicedPacket x3, LaxPacketHeaders x4, LaxIpSlice, LaxIpv4Slice, LaxIpv6Slice, "
                 "IpHeaders::*_lax x3, LaxMacsecSlice, UdpSlice::from_slice_lax, Ipv6Extensions(Slice)::from_slice_lax) compared with "
-                "(a) the strict sibling on the same bytes and (b) the reference decoder in lax mode; non-trivial = decoded past "
+                "(a) the strict sibling on the same bytes (incl. stop error = strict error where both stop at one single-description fault) "
+                "and (b) the reference decoder in lax mode; non-trivial = decoded past "
                 "the first header or recorded a stop error; distinct = distinct (entry point, layer sequence, stop error class, stop layer)",
         "assumptions": COMMON_ASSUME + [
             "reference decoder R in lax mode (DESIGN appendix B) incl. the documented relaxations (IPv4 total_len / IPv6 "
@@ -163,7 +165,7 @@ PROPS = {
         "level": "exploration",
         "rule": "cases = delivery histories: 1-4 datagrams whose stream ids differ in exactly one component (source, destination, "
                 "identification, protocol, VLAN ids, channel, IP version), payload bytes unique per (stream, offset), random 8-aligned "
-                "cuts plus consistent overlaps, delivered as real Ethernet/VLAN/IPv4|IPv6+fragment-header packets through SlicedPacket "
+                "cuts plus consistent overlaps, empty final and empty inner fragments, delivered as real Ethernet/VLAN/IPv4|IPv6+fragment-header packets through SlicedPacket "
                 "into IpDefragPool in random order with duplicates, interleaving, returned buffers (reuse), timestamp eviction and - in "
                 "the conflict engine - unaligned / oversized / conflicting-end fragments in both arrival orders; every delivery is "
                 "judged against a sequential model (None until the union of delivered ranges covers [0,end) with end known, then the "
@@ -364,7 +366,8 @@ PROPS = {
     },
     "C08": {
         "level": "exploration",
-        "rule": "byte direction: generated (hostile) headers of 24 decoder entry points / 17 header types; every accepted input b: to_bytes = write "
+        "rule": "byte direction: generated (hostile) headers of 24 decoder entry points / 17 header types; every input b accepted by from_slice or "
+                "(one case in three) by read: to_bytes = write "
                 "(write_raw for IPv4), length = header_len = bytes consumed, re-encoding equals b under the reserved-bit mask table "
                 "(MACsec SL reserved bits, IPv4 reserved flag, AH reserved, fragment header reserved, TCP reserved; typed ICMP and extension "
                 "chains compared at value level), decode(encode(v)) = v with empty remainder, read(encode(v)) = v; value direction: directly "
